@@ -12,7 +12,7 @@
    copy+delete (home fallback across volumes) - the check kills the real command before every
    syscall-level mutation for that.  Proofs in Proofs/PutProofs.v. *)
 From TV Require Import Prelude.Str Codec.TrashInfo Prog.Prog Cmd.Put Proofs.ProgProofs Proofs.PutSafe Proofs.PutProofs
-  Proofs.TrashInfoProofs.
+  Proofs.TrashInfoProofs World.World Proofs.WorldProofs Proofs.WorldPut Proofs.PathProofs.
 Open Scope N_scope.
 
 Theorem put_info_before_payload : forall o,
@@ -30,6 +30,23 @@ Proof.
   intros loc d b H. unfold parseable. destruct (parse_path_format_lemma _ _ _ H) as [txt [Hr Hp]]. rewrite Hr, Hp. reflexivity.
 Qed.
 Print Assumptions written_content_parseable.
+
+(* ---- the same on the tree of files (World.v): for every run of trash-put, every tree-shaped file system s the run is
+   consistent with (every answer one that s, as changed by the previous operations, could have given; a failing
+   operation is an answer like any other), provided no argument contains an info file the run creates (safe_srcs):
+   (1) whenever a payload is moved into a trash directory, the .trashinfo it belongs to exists at that moment as a
+       regular file with complete, parseable content - in every intermediate state (wok);
+   (2) at EVERY prefix t1 of the run - every point where the process can be killed, at library-call granularity -
+       every payload moved so far still has that complete .trashinfo: trash-put never removes, rewrites or moves
+       away the info of an entry it has trashed. *)
+Theorem put_payload_always_has_info : forall o,
+  all_runs (fun t _ => forall s, wf (wfs s) -> safe_srcs t [] ->
+      wok moved_has_info s t /\
+      forall t1 t2 s1, t = t1 ++ t2 -> wrun s t1 s1 ->
+        forall src dst, In (Move src dst, RUnit) t1 ->
+          exists p, dst = path_of_backup_copy p /\ is_info_path p = true /\ complete s1 p) (put_main o).
+Proof. exact put_world_lemma. Qed.
+Print Assumptions put_payload_always_has_info.
 
 (* ---- non-vacuity: what the monitor rejects ---- *)
 Definition ex_info := Eval compute in $"/t/info/a.trashinfo".
